@@ -3,6 +3,7 @@
 
 use serde_json::{Value, json};
 
+use crate::abi::*;
 use crate::ops::Kind;
 use crate::opsworld::{Cfg, OpsWorld};
 use crate::seqx::{self, Bounds, ExecResult, Stats};
@@ -40,28 +41,255 @@ pub fn ops_harness(name: &str, prop: &'static str, cfg: Cfg, bounds: Bounds) -> 
     }
 }
 
-pub fn bounds(depth: usize, dev: u32, d_all: usize) -> Bounds {
+pub fn bounds(depth: usize, dev: usize, d_all: usize) -> Bounds {
+    let dev = dev as u32;
     Bounds { depth, dev, d_all, merge: true, shard: (0, 1), cap_s: 0 }
 }
 
 pub fn harnesses(prop: &str, tier: &str) -> Vec<Harness> {
     let quick = tier == "quick";
     match prop {
+        "C01" => c01(quick),
         "C02" => c02(quick),
+        "C03" => c03(quick),
+        "C04" => c04(quick),
+        "C05" => c05(quick),
+        "C06" => c06(quick),
+        "C09" => c09(quick),
         _ => Vec::new(),
     }
 }
 
 fn c02(quick: bool) -> Vec<Harness> {
     let mut v = Vec::new();
+    let d = |q: usize, t: usize| if quick { q } else { t };
     let mut cfg = Cfg::base("C02");
     cfg.kinds = vec![Kind::ReadVec, Kind::WriteVec];
     cfg.max_ops = 2;
-    v.push(ops_harness("single-pair", "C02", cfg, bounds(if quick { 7 } else { 9 }, 2, 4)));
+    v.push(ops_harness("single-pair", "C02", cfg, bounds(d(8, 10), d(2, 3), 4)));
+
+    let mut cfg = Cfg::base("C02");
+    cfg.preset = vec![Kind::MultishotRead];
+    cfg.kinds = vec![Kind::ReadVec];
+    cfg.max_ops = 2;
+    cfg.max_items = 3;
+    cfg.pool = (4, 8);
+    v.push(ops_harness("multishot+single", "C02", cfg, bounds(d(9, 11), d(2, 3), 4)));
+
+    let mut cfg = Cfg::base("C02");
+    cfg.preset = vec![Kind::SendZc];
+    cfg.kinds = vec![Kind::WriteVec];
+    cfg.max_ops = 2;
+    v.push(ops_harness("zerocopy+single", "C02", cfg, bounds(d(8, 10), d(2, 3), 4)));
+
+    let mut cfg = Cfg::base("C02");
+    cfg.preset = vec![Kind::MultishotAccept, Kind::Accept];
+    cfg.kinds = vec![];
+    cfg.max_ops = 2;
+    v.push(ops_harness("descriptor-streams", "C02", cfg, bounds(d(8, 10), d(2, 3), 4)));
+
+    let mut cfg = Cfg::base("C02");
+    cfg.preset = vec![Kind::MultishotRecv, Kind::MultishotRead];
+    cfg.kinds = vec![];
+    cfg.max_ops = 2;
+    cfg.pool = (4, 4);
+    v.push(ops_harness("two-multishot", "C02", cfg, bounds(d(9, 11), d(2, 3), 4)));
+
+    let mut cfg = Cfg::base("C02");
+    cfg.preset = vec![Kind::ReadVec, Kind::RecvFrom, Kind::WriteVectored2];
+    cfg.kinds = vec![];
+    cfg.max_ops = 3;
+    cfg.errors = false;
+    v.push(ops_harness("three-singles", "C02", cfg, bounds(d(9, 11), d(2, 3), 4)));
     v
 }
 
-pub const ALL: &[&str] = &["C02"];
+const WRAP_C0: &[u32] = &[0, 1, 0x7fff_ffff, 0x8000_0000, 0xffff_fffc, 0xffff_fffe, 0xffff_ffff];
+
+fn c05(quick: bool) -> Vec<Harness> {
+    let mut v = Vec::new();
+    let d = |q: usize, t: usize| if quick { q } else { t };
+    let raw = vec![
+        (0u64, 0i32, 0u32),
+        (1, 0, 0),
+        (2, -libc::ENOENT, 0),
+        (2, -libc::EALREADY, 0),
+        (2, -libc::EINVAL, 0),
+        (3, -libc::EBADF, 0),
+        (0xdead_beef_0000, 5, CQE_F_SKIP),
+    ];
+    for &c0 in WRAP_C0 {
+        for cq in [2u32, 4] {
+            if quick && cq == 4 && !(c0 == 0 || c0 == 0xffff_fffe) {
+                continue;
+            }
+            let mut cfg = Cfg::base("C05");
+            cfg.sq = 2;
+            cfg.cq = Some(cq);
+            cfg.c0_cq = c0;
+            cfg.preset = vec![Kind::ReadVec, Kind::MultishotRead];
+            cfg.kinds = vec![];
+            cfg.max_ops = 2;
+            cfg.max_items = 3;
+            cfg.pool = (4, 4);
+            cfg.raw_cqes = raw.clone();
+            cfg.canary = true;
+            cfg.errors = false;
+            cfg.shorts = false;
+            cfg.allow_fresh = false;
+            cfg.report = vec!["C05"];
+            v.push(ops_harness(&format!("cq{cq}-c0={c0:#x}"), "C05", cfg, bounds(d(8, 10), d(3, 4), 3)));
+        }
+    }
+    v
+}
+
+fn c03(quick: bool) -> Vec<Harness> {
+    let mut v = Vec::new();
+    let d = |q: usize, t: usize| if quick { q } else { t };
+    for sq in [1u32, 2, 4] {
+        let mut cfg = Cfg::base("C03");
+        cfg.sq = sq;
+        cfg.kinds = vec![Kind::ReadVec, Kind::MultishotRead];
+        cfg.max_ops = if sq == 1 { 3 } else { 3 };
+        cfg.allow_drop = true;
+        cfg.allow_fresh = true;
+        cfg.errors = false;
+        cfg.shorts = false;
+        cfg.faults = true;
+        cfg.costs.spurious_poll = 1;
+        cfg.costs.drop_op = 1;
+        cfg.costs.fresh_waker = 1;
+        cfg.report = vec!["C03"];
+        v.push(ops_harness(&format!("sq{sq}"), "C03", cfg, bounds(d(9, 11), d(3, 4), 4)));
+    }
+    v
+}
+
+fn c04(quick: bool) -> Vec<Harness> {
+    let mut v = Vec::new();
+    let d = |q: usize, t: usize| if quick { q } else { t };
+    for sq in [1u32, 2, 4] {
+        for &c0 in WRAP_C0 {
+            if quick && sq == 4 && !(c0 == 0 || c0 == 0xffff_fffe) {
+                continue;
+            }
+            let mut cfg = Cfg::base("C04");
+            cfg.sq = sq;
+            cfg.c0_sq = c0;
+            cfg.kinds = vec![Kind::WriteVec];
+            cfg.max_ops = (2 * sq as usize + 2).min(6);
+            cfg.errors = false;
+            cfg.shorts = false;
+            cfg.allow_fresh = false;
+            cfg.report = vec!["C04"];
+            v.push(ops_harness(&format!("sq{sq}-c0={c0:#x}"), "C04", cfg, bounds(d(9, 12), d(2, 3), 3)));
+        }
+    }
+    v
+}
+
+fn c09(quick: bool) -> Vec<Harness> {
+    let mut v = Vec::new();
+    let d = |q: usize, t: usize| if quick { q } else { t };
+    use Kind::*;
+    let kinds = [
+        ReadVec, ReadVecPrefilled, WriteVec, WriteStatic, ReadVectored2, WriteVectored2, WriteVectoredTuple, Recv,
+        RecvVectored, RecvFrom, RecvFromVectored, Send, SendZc, SendTo, SendToZc, SendVectored, SendVectoredZc,
+        ReadPool, RecvPool, MultishotRead, MultishotRecv, Accept, AcceptNoAddr, MultishotAccept, OpenFile, Socket,
+        Connect, Bind, LocalAddr, SockOpt, SetSockOpt, Statx, CreateDir, Rename, RemoveFile, Fsync, Truncate, Shutdown,
+        Pipe, WaitId, ReadLimited, OpenDirect, SocketDirect, PipeDirect, ToDirect,
+    ];
+    for k in kinds {
+        let mut cfg = Cfg::base("C09");
+        cfg.sq = 2;
+        cfg.preset = vec![k];
+        cfg.kinds = vec![];
+        cfg.max_ops = 1;
+        cfg.faults = true;
+        cfg.errors = true;
+        cfg.shorts = true;
+        cfg.allow_fresh = false;
+        cfg.costs.outcome = 0;
+        cfg.costs.spurious_poll = 1;
+        cfg.max_items = 2;
+        if k.needs_direct_table() {
+            cfg.direct_table = Some(4);
+        }
+        cfg.report = vec!["C09"];
+        v.push(ops_harness(&format!("{k:?}"), "C09", cfg, bounds(d(8, 10), d(1, 2), 4)));
+    }
+    v
+}
+
+fn drop_cfg(prop: &'static str, preset: Vec<Kind>) -> Cfg {
+    let mut cfg = Cfg::base(prop);
+    cfg.sq = 2;
+    cfg.preset = preset;
+    cfg.kinds = vec![];
+    cfg.max_ops = cfg.preset.len();
+    cfg.faults = true;
+    cfg.errors = false;
+    cfg.shorts = false;
+    cfg.allow_drop = true;
+    cfg.allow_fresh = false;
+    cfg.allow_cancel_lose = true;
+    cfg.costs.drop_op = 0;
+    cfg.costs.outcome = 1;
+    cfg.costs.cancel_lose = 0;
+    cfg.max_items = 2;
+    if cfg.preset.iter().any(|k| k.needs_direct_table()) {
+        cfg.direct_table = Some(4);
+    }
+    cfg
+}
+
+fn c06(quick: bool) -> Vec<Harness> {
+    let mut v = Vec::new();
+    let d = |q: usize, t: usize| if quick { q } else { t };
+    use Kind::*;
+    let kinds = [ReadVec, WriteVec, ReadVectored2, RecvFrom, SendZc, SendVectoredZc, MultishotRead, MultishotAccept, Statx, Connect, Rename];
+    for k in kinds {
+        let mut cfg = drop_cfg("C06", vec![k]);
+        cfg.report = vec!["C06"];
+        v.push(ops_harness(&format!("{k:?}"), "C06", cfg, bounds(d(7, 9), d(2, 3), 4)));
+    }
+    for (a, b) in [(ReadVec, SendZc), (ReadVec, WriteVec), (MultishotRead, ReadVec)] {
+        for sq in [1u32, 2] {
+            let mut cfg = drop_cfg("C06", vec![a, b]);
+            cfg.sq = sq;
+            cfg.report = vec!["C06"];
+            v.push(ops_harness(&format!("{a:?}+{b:?}-sq{sq}"), "C06", cfg, bounds(d(7, 9), d(2, 3), 4)));
+        }
+    }
+    v
+}
+
+fn c01(quick: bool) -> Vec<Harness> {
+    let mut v = Vec::new();
+    let d = |q: usize, t: usize| if quick { q } else { t };
+    use Kind::*;
+    let kinds = [
+        ReadVec, ReadVecPrefilled, WriteVec, WriteStatic, WriteString, WriteBoxed, WriteArc, ReadVectored2, WriteVectored2,
+        WriteVectoredTuple, Recv, RecvVectored, RecvFrom, RecvFromVectored, Send, SendZc, SendTo, SendToZc, SendVectored,
+        SendVectoredZc, ReadPool, RecvPool, MultishotRead, MultishotRecv, Accept, AcceptNoAddr, MultishotAccept, OpenFile,
+        Socket, Connect, Bind, LocalAddr, SockOpt, SetSockOpt, Statx, CreateDir, Rename, RemoveFile, Pipe, ToDirect, WaitId,
+        ReadLimited, ReadN, WriteAll, WriteAllVectored, SendAll,
+    ];
+    for k in kinds {
+        let mut cfg = drop_cfg("C01", vec![k]);
+        cfg.report = vec!["C01"];
+        v.push(ops_harness(&format!("{k:?}"), "C01", cfg, bounds(d(6, 8), d(2, 3), 4)));
+    }
+    for (a, b) in [(ReadVec, SendZc), (RecvFrom, WriteVectored2), (MultishotRead, Accept), (ReadPool, Statx)] {
+        let mut cfg = drop_cfg("C01", vec![a, b]);
+        cfg.report = vec!["C01"];
+        v.push(ops_harness(&format!("{a:?}+{b:?}"), "C01", cfg, bounds(d(7, 9), d(2, 3), 4)));
+    }
+    v
+}
+
+pub const ALL: &[&str] = &["C01", "C02", "C03", "C04", "C05", "C06", "C09"];
 
 pub fn assumptions(prop: &str) -> Vec<String> {
     let mut v = vec![
